@@ -10,9 +10,9 @@ CONSTANTS
   PbShape = "raw"
   PbTerms = 2
   PbPols = {0, 1}
-  PbNeg = 2
+  PbNeg = 1
   PbPos = 3
-  PbBound = 4
+  PbBound = 3
   PbOps = {">=", "<=", ">", "<", "="}
   MaxMgrs = 1
   MaxPosts = 1
